@@ -1,4 +1,201 @@
 import BoltonsVerif.C01.Proofs
+/-
+C01 — property theorems for the OrderedMultiDict model (statements, short derivations from
+`Proofs.lean`, non-vacuity examples).
+
+  model   `OMD K V` = the dict of per-key value lists (`vals`) + the linked list of cells (`cells`),
+          every public method transliterated (`Model.lean`);
+  spec    a plain `List (K × V)` with one-line operations (`Spec.lean`);
+  `Inv`   the dict holds for every key exactly the values of its cells, in cell order, no empty
+          lists, unique keys;
+  `absH`  forgets the dict: a history state is abstracted to its two cell lists.
+
+Histories (`HOp`) run on two registers so that OMD-valued arguments, copies and comparison
+partners are themselves products of arbitrary histories.  `K`, `V` are arbitrary types with
+decidable equality on keys: nothing depends on a bound on keys, values, sizes or history length.
+-/
 namespace C01
-theorem placeholder_true : True := trivial
+open Spec
+variable {K V : Type} [DecidableEq K]
+
+/-! ## the two structures move in lock-step -/
+
+/-- a fresh dictionary satisfies the invariant -/
+theorem inv_init : HInv (HState.init : HState K V) := hinv_init
+
+/-- every public mutator (with any argument that is itself a consistent OMD, a mapping, or any
+    iterable of pairs) preserves the invariant -/
+theorem inv_step (st : HState K V) (hi : HInv st) (op : HOp K V) : HInv (hstep st op).1 :=
+  (hstep_spec st hi op).1
+
+/-- … and is exactly the corresponding one-line operation on the plain list of pairs:
+    same resulting pair list, same return value / same exception -/
+theorem refines_step (st : HState K V) (hi : HInv st) (op : HOp K V) :
+    absH (hstep st op).1 = (Spec.hstep (absH st) op).1 ∧ (hstep st op).2 = (Spec.hstep (absH st) op).2 :=
+  (hstep_spec st hi op).2
+
+/-- for every finite history of public operations, after every prefix: the pair list and the
+    return value are those of the plain list of pairs -/
+theorem refines_history (ops : List (HOp K V)) :
+    (hrun (HState.init : HState K V) ops).map (fun r => (absH r.1, r.2)) =
+      Spec.hrun ⟨[], []⟩ ops :=
+  (hrun_spec HState.init hinv_init ops).1
+
+/-- … and the invariant holds in every state a history reaches -/
+theorem inv_history (ops : List (HOp K V)) (r : HState K V × Out K V)
+    (hr : r ∈ hrun (HState.init : HState K V) ops) : HInv r.1 :=
+  (hrun_spec HState.init hinv_init ops).2 r hr
+
+/-! ## every read equals the read of the plain list (and does not raise) -/
+
+/-- all readers of a state that satisfies the invariant, against the list-of-pairs readers.
+    Keyed readers use the dict, ordered readers the cells: under `Inv` they cannot disagree. -/
+structure ReadsAgree (s : OMD K V) : Prop where
+  itemsM   : s.itemsM = s.cells
+  keysM    : s.keysM = s.cells.map (·.1)
+  valuesM  : s.valuesM = s.cells.map (·.2)
+  keys     : s.keys = Spec.keys s.cells
+  items    : s.items = .ok (Spec.items s.cells)
+  values   : s.values = .ok (Spec.values s.cells)
+  getitem  : ∀ k, s.getitem k = Spec.getitem s.cells k
+  get      : ∀ k, s.get k = .ok (Spec.last k s.cells)
+  getlist  : ∀ k, s.getlist k = Spec.valsOf k s.cells
+  contains : ∀ k, s.contains k = Spec.has k s.cells
+  len      : s.len = Spec.len s.cells
+  reversed : s.reversed = .ok (Spec.reversed s.cells)
+  todictM  : s.todictM = Spec.todictM s.cells
+  counts   : s.counts = .ok (Spec.counts s.cells)
+
+theorem reads_agree (s : OMD K V) (h : Inv s) : ReadsAgree s :=
+  { itemsM := rfl, keysM := rfl, valuesM := rfl, keys := rfl
+    items := items_spec h, values := values_spec h
+    getitem := getitem_spec h, get := get_spec h, getlist := getlist_spec h
+    contains := contains_spec h, len := len_spec h, reversed := reversed_spec h
+    todictM := todictM_spec h, counts := counts_spec h }
+
+/-- after every prefix of every history all reads of both registers agree with the plain list -/
+theorem reads_agree_history (ops : List (HOp K V)) (r : HState K V × Out K V)
+    (hr : r ∈ hrun (HState.init : HState K V) ops) : ReadsAgree r.1.s ∧ ReadsAgree r.1.t :=
+  ⟨reads_agree _ (inv_history ops r hr).s, reads_agree _ (inv_history ops r hr).t⟩
+
+/-- the only exception a single-key read raises is the KeyError of an absent key -/
+theorem getitem_error_iff (s : OMD K V) (h : Inv s) (k : K) :
+    (∃ e, s.getitem k = .error e) ↔ (s.contains k = false ∧ s.getitem k = .error .keyError) := by
+  rw [getitem_spec h, contains_spec h]
+  unfold Spec.getitem
+  cases hl : Spec.last k s.cells with
+  | none =>
+    have : ¬ Spec.has k s.cells = true := fun hh => by
+      have := (last_isSome_iff k s.cells).mpr ((has_iff k s.cells).mp hh); simp [hl] at this
+    simp [this]
+  | some v => simp
+
+/-! ## what the list readers mean -/
+
+/-- `keys()` lists every key once … -/
+theorem keys_nodup (L : List (K × V)) : (Spec.keys L).Nodup := nodup_dedup _
+
+/-- … exactly the keys that have a pair … -/
+theorem mem_keys_iff (L : List (K × V)) (k : K) : k ∈ Spec.keys L ↔ k ∈ L.map (·.1) := mem_dedup _ k
+
+/-- … in order of first appearance: appending a pair adds its key at the end iff it is new -/
+theorem keys_append_pair (L : List (K × V)) (k : K) (v : V) :
+    Spec.keys (L ++ [(k, v)]) = if k ∈ L.map (·.1) then Spec.keys L else Spec.keys L ++ [k] := by
+  simp [Spec.keys, dedup_concat]
+
+/-- single-value reads see the key's most recent pair -/
+theorem last_append_pair (L : List (K × V)) (k k' : K) (v : V) :
+    Spec.last k' (L ++ [(k, v)]) = if k = k' then some v else Spec.last k' L := by
+  by_cases e : k = k'
+  · subst e; simp [last_concat]
+  · simp [Spec.last, valsOf_append, valsOf_single, e]
+
+/-- assignment replaces all of a key's pairs by one pair at the end -/
+theorem setitem_valsOf (L : List (K × V)) (k k' : K) (v : V) :
+    Spec.valsOf k' (Spec.setitem L k v) = if k' = k then [v] else Spec.valsOf k' L := by
+  simp only [Spec.setitem, Spec.remove, valsOf_append, valsOf_remove, valsOf_single]
+  by_cases e : k' = k
+  · subst e; simp
+  · have : ¬ k = k' := fun e' => e e'.symm
+    simp [e, this]
+
+/-- `update` with pairs (or another OMD) replaces all pairs of every key it mentions and keeps
+    every pair it brings, duplicates included -/
+theorem update_pairs_valsOf (L l : List (K × V)) (k : K) :
+    Spec.valsOf k (Spec.update L (.pairs l) []) =
+      if k ∈ l.map (·.1) then Spec.valsOf k l else Spec.valsOf k L := by
+  simp only [Spec.update, Spec.setAll, List.foldl_nil, Spec.replaceBy, valsOf_append]
+  by_cases hk : k ∈ l.map (·.1)
+  · have : Spec.valsOf k (L.filter fun p => !decide (p.1 ∈ l.map (·.1))) = [] := by
+      by_cases e : Spec.valsOf k (L.filter fun p => !decide (p.1 ∈ l.map (·.1))) = []
+      · exact e
+      · have := (valsOf_ne_nil_iff _ _).mp e
+        obtain ⟨p, hp, rfl⟩ := List.mem_map.mp this
+        have hp2 := (List.mem_filter.mp hp).2
+        simp only [Bool.not_eq_eq_eq_not, Bool.not_true, decide_eq_false_iff_not] at hp2
+        exact absurd hk hp2
+    simp [hk, this]
+  · have h1 : Spec.valsOf k l = [] := by
+      by_cases e : Spec.valsOf k l = []
+      · exact e
+      · exact absurd ((valsOf_ne_nil_iff _ _).mp e) hk
+    simp only [hk, ↓reduceIte, h1, List.append_nil]
+    unfold Spec.valsOf
+    rw [List.filter_filter]
+    congr 1
+    apply List.filter_congr
+    intro p _
+    by_cases e : p.1 = k
+    · subst e; simp [isK, hk]
+    · simp [isK, e]
+
+/-! ## copies -/
+
+/-- `copy()`, `copy.copy`, `copy.deepcopy` and a pickle round trip (all: rebuild from
+    `items(multi=True)`) give a consistent dictionary with the same pairs — even from a
+    dictionary whose two structures had drifted apart -/
+theorem copy_complete (s : OMD K V) : Inv s.copy ∧ s.copy.cells = s.cells := copy_spec s
+
+/-- the constructor from any iterable of pairs keeps every pair, in order -/
+theorem fromPairs_complete (l : List (K × V)) :
+    Inv (OMD.fromPairs l) ∧ (OMD.fromPairs l : OMD K V).cells = l := fromPairs_spec l
+
+/-! ## equality -/
+
+/-- `omd == other_omd` is true exactly when the pair lists are equal -/
+theorem eq_omd_iff [DecidableEq V] (s t : OMD K V) (hs : Inv s) (ht : Inv t) :
+    s.eqOMD t = true ↔ s.cells = t.cells := eqOMD_iff hs ht
+
+/-- `omd == mapping` never raises and is true exactly when the mapping has the same keys and, for
+    each key, the value the OMD shows for it (its most recent one) -/
+theorem eq_mapping_iff [DecidableEq V] (s : OMD K V) (h : Inv s) (m : List (K × V)) (hm : (dkeys m).Nodup) :
+    (∃ b, s.eqMapping m = .ok b ∧ (b = true ↔ ∀ k, dget k m = Spec.last k s.cells)) :=
+  ⟨_, eqMapping_spec h m, spec_eqMapping_iff s.cells m hm⟩
+
+/-! ## non-vacuity: concrete histories and states the theorems speak about -/
+
+/-- an interleaved multi-valued state reached by a history with replacement and removal -/
+def demoOps : List (HOp Nat Nat) :=
+  [.new (some (.pairs [(0, 0), (1, 1), (0, 2), (2, 3), (1, 0)])) [],
+   .update (.pairs [(3, 0), (3, 1), (0, 5)]) [], .copyToT, .poplast none false, .setitem 1 7,
+   .updateExtend .regT [], .popitem, .delitem 9]
+
+example : (hrun HState.init demoOps).map (fun r => (r.1.s.cells, r.2)) =
+    [([(0, 0), (1, 1), (0, 2), (2, 3), (1, 0)], .unit),
+     ([(1, 1), (2, 3), (1, 0), (3, 0), (3, 1), (0, 5)], .unit),
+     ([(1, 1), (2, 3), (1, 0), (3, 0), (3, 1), (0, 5)], .unit),
+     ([(1, 1), (2, 3), (1, 0), (3, 0), (3, 1)], .val 5),
+     ([(2, 3), (3, 0), (3, 1), (1, 7)], .unit),
+     ([(2, 3), (3, 0), (3, 1), (1, 7), (1, 1), (2, 3), (1, 0), (3, 0), (3, 1), (0, 5)], .unit),
+     ([(2, 3), (3, 0), (3, 1), (1, 7), (1, 1), (2, 3), (1, 0), (3, 0), (3, 1)], .pair 0 5),
+     ([(2, 3), (3, 0), (3, 1), (1, 7), (1, 1), (2, 3), (1, 0), (3, 0), (3, 1)], .err .keyError)] := by
+  decide
+
+example : Spec.keys [(2, 3), (3, 0), (3, 1), (1, 7), (1, 1), (2, 3)] = [2, 3, 1] := by decide
+example : Spec.items [(2, 3), (3, 0), (3, 1), (1, 7), (1, 1), (2, 4)] = [(2, 4), (3, 1), (1, 1)] := by decide
+example : (OMD.fromPairs [(0, 1), (1, 2), (0, 3)] : OMD Nat Nat).eqMapping [(1, 2), (0, 3)] = .ok true := rfl
+example : (OMD.fromPairs [(0, 1), (1, 2), (0, 3)] : OMD Nat Nat).eqMapping [(1, 2), (0, 1)] = .ok false := rfl
+/-- a state that violates `Inv` (what `addlist(k, iterator)` used to produce): its reads disagree -/
+example : (⟨[(0, [])], [(0, 1), (0, 2)]⟩ : OMD Nat Nat).items = .error .indexError := rfl
+
 end C01
